@@ -150,6 +150,11 @@ class TableOps:
             if self._amount(st, tb, ev.args[1]) == ABSENT or self._known_absent(st, tb, ev.args[1]):
                 self.sites["add"].add(ev.b)
                 eng.obl("SYM-4", "add", ev.b)
+                if is_const(v, 0):
+                    # `if !contains_key(k) { insert(k, 0) }  *get_mut(k) += 1`: the record is created empty and
+                    # counted right after; settled at the in-place addition (or reported at return)
+                    k0 = ev.args[1]
+                    return add(st, ("zero_insert", tb, k0[1] if k0[0] == "ref" else k0, ev.b))
                 if not is_const(v, 1):
                     eng.violate("SYM-4", "insert-not-plus-one", "a link that was not recorded before is created with count %s instead of 1" % show(v)[:40], ev.b, st)
                 st = rem(st, lambda g: g[0] == "top" and g[1] == "sub" and g[2] == tb and g[5] == ABSENT and g[3] == kind and g[4] == target)
@@ -178,7 +183,7 @@ class TableOps:
         # a lookup of an entry that was just written through cannot fail
         if v == "0" and inner[0] == "call" and inner[2].startswith("hashbrown::HashMap") and inner[2].rsplit("::", 1)[1] in ("get", "get_mut", "get_key_value") and len(inner[3]) >= 2:
             tb0 = table_of(inner[3][0])
-            if tb0 is not None and any(f[0] == "zero_pending" and f[1] == tb0 and _same_key(f[2], inner[3][1]) for f in st.flags):
+            if tb0 is not None and any(f[0] in ("zero_pending", "zero_insert") and f[1] == tb0 and _same_key(f[2], inner[3][1]) for f in st.flags):
                 return False
         # get_mut(k) returned None: there is no record to lower (the subtraction is vacuous)
         if v == "0" and inner[0] == "call" and inner[2].startswith("hashbrown::HashMap") and inner[2].endswith("::get_mut") and len(inner[3]) >= 2:
@@ -208,6 +213,8 @@ class TableOps:
                         return add(st, ("top", "sub", tb, kind, target, amt))
                     if v[0] == "bin" and v[1] in ("Add", "AddUnchecked") and (v[2] == old or v[3] == old):
                         amt = v[3] if v[2] == old else v[2]
+                        k1 = key[1] if key[0] == "ref" else key
+                        st = rem(st, lambda g: g[0] == "zero_insert" and g[1] == tb and _same_key(g[2], k1))
                         return add(st, ("top", "add", tb, kind, target, amt))
                     # `*count = count.saturating_sub(n)` followed by `if *count == 0 { remove }` (possibly in a guard's Drop)
                     if v[0] == "call" and v[2].startswith("core::num::") and v[2].endswith("::saturating_sub") and len(v[3]) == 2 and v[3][0] == old:
@@ -264,6 +271,8 @@ class TableOps:
         if any(f[0] == "unwinding" for f in st.flags):
             return None
         for f in st.flags:
+            if f[0] == "zero_insert":
+                eng.violate("SYM-4", "insert-not-plus-one", "a link that was not recorded before is created with count 0 instead of 1 (and not counted afterwards)", f[3], st)
             if f[0] != "zero_pending":
                 continue
             tb, key = f[1], f[2]
@@ -289,6 +298,9 @@ class TableOps:
     def _amount(self, st, tb, key):
         # the lookup of this key is known to have found nothing: the removal is vacuous
         for e, v in st.var:
+            # (`get(k).copied()` / `.cloned()` is None exactly when the lookup is)
+            while e[0] == "call" and e[2] in ("core::option::Option::<&T>::copied", "core::option::Option::<&T>::cloned", "core::option::Option::<&mut T>::copied") and e[3]:
+                e = e[3][0]
             if v == "0" and e[0] == "call" and e[2].startswith("hashbrown::HashMap") and e[2].rsplit("::", 1)[1] in ("get", "get_mut") and len(e[3]) >= 2:
                 if table_of(e[3][0]) == tb and _same_key(e[3][1], key):
                     return ABSENT
@@ -635,6 +647,8 @@ class ApiSpec:
         if self.name == "Rc::make_mut" and ev.box == self.self_box:
             if ("w1", ev.box) in st.flags:
                 eng.violate("API-1", "make_mut:steals-when-unique", "Rc::make_mut moves the value to a new allocation although no Weak handle exists", ev.b, st)
+            if ev.get("field") == "value" and not (st.strong(ev.box) <= frozenset("O")):
+                eng.violate("API-1", "make_mut:steals-when-shared", "Rc::make_mut moves the value out of its allocation although other strong handles may exist (strong-state %s): they keep pointing at a value that now has a second owner (std clones in this case)" % "".join(sorted(st.strong(ev.box))), ev.b, st)
         return None
 
     def on_return(self, eng, ev, st):
